@@ -4,7 +4,7 @@ Symplyphysics latex printer
 
 import re
 from typing import Any
-from sympy import E, S, Expr, Mod, Mul
+from sympy import E, S, Expr, Mod, Mul, Derivative
 from sympy.matrices.dense import DenseMatrix
 from sympy.printing.latex import LatexPrinter, accepted_latex_functions
 from sympy.core.function import AppliedUndef
@@ -19,6 +19,19 @@ _between_two_numbers_p = (
     re.compile(r"[0-9][} ]*$"),  # search
     re.compile(r"(\d|\\frac{\d+}{\d+})"),  # match
 )
+
+
+def _is_open_ended(expr: Expr) -> bool:
+    """
+    Checks whether the printed form of ``expr`` ends with an operator that extends over everything
+    written after it (a derivative, an indexed sum or an indexed product).
+    """
+
+    if isinstance(expr, (Derivative, IndexedSum, IndexedProduct)):
+        return True
+    if isinstance(expr, Mul) and expr.args:
+        return _is_open_ended(expr.args[-1])
+    return False
 
 
 def _discard_minus_sign(expr: Expr) -> tuple[Expr, bool]:
@@ -167,13 +180,13 @@ class SymbolLatexPrinter(LatexPrinter):  # type: ignore[misc]
         # expr.args[0] contains the argument of the Product
         # expr.args[1] contains just indexed symbol
         arg, index = expr.args
-        return f"\\sum_{self._print(index)} {self._print(arg)}"
+        return f"\\sum_{self._print(index)} {self.parenthesize(arg, PRECEDENCE['Mul'], strict=True)}"
 
     # pylint: disable-next=invalid-name
     def _print_IndexedProduct(self, expr: Any) -> str:
         # only one index of sum is supported
         arg, index = expr.args
-        return f"\\prod_{self._print(index)} {self._print(arg)}"
+        return f"\\prod_{self._print(index)} {self.parenthesize(arg, PRECEDENCE['Mul'], strict=True)}"
 
     def _print_log(self, expr: Any, exp: Any = None) -> str:
         value, base = (expr.args[0], expr.args[1]) if len(expr.args) > 1 else (expr.args[0], E)
@@ -223,7 +236,11 @@ class SymbolLatexPrinter(LatexPrinter):  # type: ignore[misc]
 
             for i, term in enumerate(args):
                 term_tex = self._print(term)
-                if self._needs_mul_brackets(term, first=i == 0, last=i == len(args) - 1):
+                last = i == len(args) - 1
+                # "\\frac{d}{d t} x y" is the derivative of the product: an operator that is not the
+                # last factor has to be closed by brackets
+                if (self._needs_mul_brackets(term, first=i == 0, last=last) or
+                    (not last and _is_open_ended(term))):
                     term_tex = f"\\left({term_tex}\\right)"
 
                 if  _between_two_numbers_p[0].search(last_term_tex) and \
